@@ -14,7 +14,17 @@ REPO = os.environ.get("VERIF_REPO", "/repo")
 LEAN = os.path.join(VERIF, "lean")
 HARNESS = os.path.join(VERIF, "harness")
 BUILD = os.path.join(VERIF, "build")
-ORACLE = os.path.join(BUILD, "oracle")
+# two builds of the oracle: ORACLE links the library exactly as its users build it (no build tag) and
+# answers everything that needs no hook; ORACLE_HOOKS is built with -tags verif for what does (lock
+# events, schedule control, registry dumps)
+ORACLE = os.path.join(BUILD, "oracle-plain")
+ORACLE_HOOKS = os.path.join(BUILD, "oracle")
+
+
+def needs_hooks(req):
+    return req.startswith("locks ") or req == "rules types" or req.startswith("meta ")
+
+
 EXTRACT = os.path.join(BUILD, "extract")
 DRIVER = os.path.join(LEAN, ".lake", "build", "bin", "driver")
 NCPU = min(16, os.cpu_count() or 4)
@@ -73,7 +83,47 @@ def build_go():
             out_all += out
             if rc != 0:
                 return False, out_all
+        # the production build (no tag): the code as users of the library get it
+        rc, out = run(["go", "build", "-o", ORACLE, "./cmd/oracle"], cwd=HARNESS, env=GOENV, timeout=600)
+        out_all += out
+        if rc != 0:
+            return False, out_all
+        # the hijri month table as the library holds it, for the untagged oracle's statement of the table rule
+        try:
+            p = subprocess.run([ORACLE_HOOKS], input="meta hijri-table\n", stdout=subprocess.PIPE, stderr=subprocess.DEVNULL, text=True, timeout=60)
+            line = p.stdout.split("\n")[0].split("\t")[0]
+            if line.startswith("{"):
+                with open(os.path.join(BUILD, "hijri_table.json"), "w") as f:
+                    f.write(line)
+        except Exception as ex:   # the table dump is support for attribution only
+            out_all += "hijri table dump failed: %s\n" % ex
         return True, out_all
+
+
+def scan_build_constraints():
+    """The checks run the library as built WITHOUT the verif tag, except where hooks are needed; that is
+    only sound if the tag does nothing but ADD the recorded hook files. Any other build constraint that
+    mentions the tag (a `!verif` twin of a source file, say) is reported."""
+    bad = []
+    for root, dirs, files in os.walk(REPO):
+        dirs[:] = [d for d in dirs if not d.startswith(".") and d != "SEEDED"]
+        for fn in files:
+            if not fn.endswith(".go"):
+                continue
+            path = os.path.join(root, fn)
+            try:
+                head = open(path, errors="replace").read(4000)
+            except OSError:
+                continue
+            for line in head.split("\n"):
+                t = line.strip()
+                if t.startswith("package "):
+                    break
+                if (t.startswith("//go:build") or t.startswith("// +build")) and "verif" in t:
+                    ok = fn == "verif_hooks.go" and t in ("//go:build verif", "// +build verif")
+                    if not ok:
+                        bad.append("%s: %s" % (os.path.relpath(path, REPO), t))
+    return bad
 
 
 def regenerate():
@@ -231,7 +281,9 @@ def run_stream(name, requests, workdir, nworkers=NCPU, compare=None, weight=None
         futs = []
         for rq, im, mo in files:
             if not model_only:
-                futs.append(ex.submit(_serve, ORACLE, rq, im))
+                chunk_reqs = open(rq).read().split("\n")
+                binary = ORACLE_HOOKS if any(needs_hooks(r) for r in chunk_reqs) else ORACLE
+                futs.append(ex.submit(_serve, binary, rq, im))
             futs.append(ex.submit(_serve, DRIVER, rq, mo))
         rcs = [f.result() for f in futs]
     seen = set()
@@ -250,7 +302,7 @@ def run_stream(name, requests, workdir, nworkers=NCPU, compare=None, weight=None
             if any(item.startswith("!MORE ") for item in parts[1:]) and len(res.props) < 5000:
                 # more failing inputs than listed: ask again for the complete list (bounded: a change
                 # that breaks millions of inputs needs no complete list)
-                _, raw = ask(ORACLE, [req], env={"ORACLE_PROP_CAP": "10000000"})
+                _, raw = ask(ORACLE_HOOKS if needs_hooks(req) else ORACLE, [req], env={"ORACLE_PROP_CAP": "10000000"})
                 parts = raw[0].split("\t")
             for item in parts[1:]:
                 if item.startswith("!PROP "):
